@@ -1084,8 +1084,9 @@ func (r removal) class() string {
 
 // deriveOld draws what old lacks and builds old from a copy of new: fields
 // that are not required, enum members and union members — never anything a
-// constant or a declared default mentions, so that every constant and default
-// of old is the one of new.
+// constant or a declared default mentions, and no field of a struct-like that
+// a struct literal instantiates, so that every constant and default of old is
+// the one of new.
 func deriveOld(rt *rapid.T, p *idl.Program) (*idl.Program, []removal) {
 	ms := idl.CollectMentions(p)
 	var cands []removal
@@ -1093,6 +1094,13 @@ func deriveOld(rt *rapid.T, p *idl.Program) (*idl.Program, []removal) {
 		for _, d := range f.Defs {
 			switch {
 			case d.Kind.IsStructLike():
+				if ms.Instantiated[d] {
+					// a constant or default builds a value of this struct-like with a literal; the literal fixes
+					// all fields (the absent ones too), and code that cannot tell "unset" from "holds the
+					// default" (optional struct/container fields with a default) writes that value out: with a
+					// field less in old, the two versions would declare different defaults
+					continue
+				}
 				for _, fl := range d.Fields {
 					if fl.Req != idl.ReqRequired && !ms.Fields[fl] {
 						cands = append(cands, removal{def: d, field: fl})
@@ -1209,6 +1217,58 @@ func affected(schNew, schOld *ref.Schema) map[string]bool {
 	return out
 }
 
+// nestedBig returns the structs of new whose values can hold, below their top
+// level, a container- or struct-typed field that old lacks (the non-trivial
+// shape of this check).
+func nestedBig(schNew, schOld *ref.Schema) map[string]bool {
+	big := map[string]bool{} // structs that lost a container- or struct-typed field
+	for _, st := range schNew.Structs {
+		o := schOld.ByName(st.Name)
+		if o == nil {
+			continue
+		}
+		for _, f := range st.Fields {
+			if k := kindClass(f.Type); o.Field(f.ID) == nil && (k == "container" || k == "struct") {
+				big[st.Name] = true
+			}
+		}
+	}
+	var reach func(t *ref.Type, seen map[string]bool) bool
+	reach = func(t *ref.Type, seen map[string]bool) bool {
+		switch t.Kind {
+		case ref.List, ref.Set:
+			return reach(t.Elem, seen)
+		case ref.Map:
+			return reach(t.Key, seen) || reach(t.Elem, seen)
+		case ref.Struct:
+			if big[t.Struct.Name] {
+				return true
+			}
+			if seen[t.Struct.Name] {
+				return false
+			}
+			seen[t.Struct.Name] = true
+			o := schOld.ByName(t.Struct.Name)
+			for _, f := range t.Struct.Fields {
+				if o != nil && o.Field(f.ID) != nil && reach(f.Type, seen) {
+					return true
+				}
+			}
+		}
+		return false
+	}
+	out := map[string]bool{}
+	for _, st := range schNew.Structs {
+		o := schOld.ByName(st.Name)
+		for _, f := range st.Fields {
+			if o != nil && o.Field(f.ID) != nil && reach(f.Type, map[string]bool{st.Name: true}) {
+				out[st.Name] = true
+			}
+		}
+	}
+	return out
+}
+
 func TestEvolve(t *testing.T) {
 	rapid.Check(t, func(rt *rapid.T) {
 		p := idl.Gen(rt, modelCfg())
@@ -1253,7 +1313,8 @@ func TestEvolve(t *testing.T) {
 			vt.Class(r.class())
 		}
 		aff := affected(schNew, schOld)
-		var affList, all []*ref.StructT
+		nb := nestedBig(schNew, schOld)
+		var affList, all, nbList []*ref.StructT
 		for _, st := range schNew.Structs {
 			// structs of a file the main file does not include are not generated at all
 			mapped := true
@@ -1270,6 +1331,9 @@ func TestEvolve(t *testing.T) {
 			if aff[st.Name] {
 				affList = append(affList, st)
 			}
+			if nb[st.Name] {
+				nbList = append(nbList, st)
+			}
 		}
 		if len(all) == 0 {
 			vt.Class("pair:no_generated_struct")
@@ -1279,7 +1343,10 @@ func TestEvolve(t *testing.T) {
 		nvals := rapid.IntRange(50, 200).Draw(rt, "nvalues")
 		for i := 0; i < nvals; i++ {
 			pool := all
-			if len(affList) > 0 && rapid.IntRange(0, 9).Draw(rt, "affected") < 8 {
+			switch k := rapid.IntRange(0, 9).Draw(rt, "affected"); {
+			case k < 4 && len(nbList) > 0:
+				pool = nbList
+			case k < 8 && len(affList) > 0:
 				pool = affList
 			}
 			st := rapid.SampledFrom(pool).Draw(rt, "struct")
